@@ -13,7 +13,7 @@ const ROOTS: [&str; 9] = ["m/", "m", "", "M/", "/", "0/", " m/", "\u{ff4d}/", "m
 fn tokens() -> Vec<String> {
     let mut t = Vec::new();
     for v in ["0", "1", "44", "60", "2147483647", "2147483648", "2147483649", "4294967295", "4294967296", "18446744073709551616"] { t.push(v.to_string()); t.push(format!("{v}'")); }
-    for v in ["", "-1", "1.5", "x", "0''", "'", "0x10", "+1", "01", " 1", "1 ", "0h", "0H"] { t.push(v.to_string()); }
+    for v in ["", "-1", "1.5", "x", "0''", "'", "0x10", "+1", "01", " 1", "1 ", "0h", "0H", "-0", "-0'", "-00", "+0", "0.0", "1e0", "-", "+"] { t.push(v.to_string()); }
     // compatibility / other-script digits and apostrophes that text normalisation would fold onto path syntax
     for v in ["\u{b2}", "\u{2082}", "\u{2460}", "\u{ff14}\u{ff14}'", "\u{663}", "4\u{b2}", "0\u{2019}", "0\u{ff07}", "\u{1d7d0}"] { t.push(v.to_string()); }
     t
@@ -83,7 +83,7 @@ pub fn run(ctx: &'static Ctx) {
     // structure beyond the BFS depth: a line of distinct valid components of depth d with ONE token (valid or defective)
     // substituted at position p - every position for d <= 12, first / middle / last beyond (fixed-capacity component
     // stores, depth counters of every width)
-    let subs: Vec<String> = ["7", "7'", "2147483647", "2147483647'", "2147483648", "2147483648'", "4294967296", "", "x", "-1", "1.5", "0x1", "+1", "01", "1''", "'", " 1", "1 "].iter().map(|s| s.to_string()).collect();
+    let subs: Vec<String> = ["7", "7'", "2147483647", "2147483647'", "2147483648", "2147483648'", "4294967296", "", "x", "-1", "1.5", "0x1", "+1", "01", "1''", "'", " 1", "1 ", "-0", "-0'", "+0", "0.0"].iter().map(|s| s.to_string()).collect();
     let mut deep: Vec<(usize, usize, usize)> = Vec::new(); // (depth, position, substitute)
     for d in (3..=12usize).chain([15, 16, 17, 31, 32, 33, 63, 64, 65, 127, 128, 129, 255, 256, 257, 300]) { let ps: Vec<usize> = if d <= 12 { (0..d).collect() } else { vec![0, d / 2, d - 2, d - 1] }; for p in ps { for k in 0..subs.len() { deep.push((d, p, k)); } } }
     ctx.sweep("deep-line-one-substitution", "lines m/1/2'/3/4'/... of depth 3..=12 with one of 18 tokens (7 valid spellings and bounds, 11 defective ones) substituted at every position, and of depth 15..300 around every power of two at the first, middle, last-but-one and last position: the reference grammar's verdict, canonical print-back and the reference key", deep.len() as u64, |i| {
